@@ -9,6 +9,10 @@ def run(ctx):
     if not ctx.translate():
         return
     ok = ctx.prove(MODULES, needs_gen=["KernelsCL"])
+    mism = ctx.kernel_diff("cl", 1500 if ctx.thorough() else 300)
+    if mism:
+        ctx.fail("correspondence", "kernel differential (Go vs Lean: tick key bytes, in-range test, regenerated kernels)", str(mism[:3]),
+                 replay={"kernel_mismatches": mism[:20]})
     _cl.run_cl(ctx, "C04")
     bad = fw.pred_search(ctx, "C04", (20000 if ctx.thorough() else 2000) if ok else 60000)
     if bad:
